@@ -16,13 +16,21 @@ LEVEL_TEXT = (
     "row of the Horton-2 table in both branches; every entry (k, centre) returned by the model of Grid.moments is "
     "sum_i w_i f_i basis_k(p_i - R) with basis_k named by row k of the returned order list (monomial, |r|^n, S_lm, "
     "|r|^n S_lm; the solid harmonics S enter as a parameter, their correctness is C08); the dipole helper equals nuclear "
-    "minus electronic first moments about the centre of mass. Tie to the code: hand model compared with the implementation "
+    "minus electronic first moments about the centre of mass. Tie to the code, way 1 (translator, regenerated on every run): "
+    "generate_orders_horton_order (all branches), the statements of Grid.moments before the loop over the centres (guards, "
+    "1-D reshape guard, range of orders, np.vstack stacking) and the (l,m)->row index statements of the pure-radial branch are "
+    "translated from the AST into Gen/Moments.lean; theorems: the generated order generator equals the model hortonOrders for "
+    "every type, dim and l (gen_horton_eq_model), the generated index statements compute rowIndex row by row "
+    "(gen_indices_eq_rowIndex), the generated prefix of Grid.moments returns dim, the orders 0..L / 1..L and the stacked "
+    "array with the model's rows for (N,d) and (N,) point arrays and orders given as int/np.int32/np.int64, rejects what the "
+    "code rejects, and the row look-up theorem holds for the generated programs together (gen_row_lookup_correct). Way 2: hand "
+    "model (quadrature, dipole) and the generated programs themselves compared with the implementation "
     "(order lists exactly, values with tolerance, solid-harmonic tables taken from the library); values end to end against "
     "independently coded basis functions by the oracle."
 )
 TECHNIQUE = "Lean 4 proof (order enumeration, index arithmetic, entry = quadrature) + differential correspondence + direct-quadrature oracle"
-GEN = []
-LEAN_MODULES = ["GridVerif.Props.C14", "GridVerif.Props.C14.Values", "GridVerif.Props.C14.Dipole"]
+GEN = ["moments"]
+LEAN_MODULES = ["GridVerif.Props.C14", "GridVerif.Props.C14.Values", "GridVerif.Props.C14.Dipole", "GridVerif.Props.C14.Gen"]
 THEOREMS = [
     "GridVerif.C14.cartesian_orders_spec",
     "GridVerif.C14.pure_orders_spec",
@@ -32,17 +40,36 @@ THEOREMS = [
     "GridVerif.C14.moments_entry_points1d",
     "GridVerif.C14.moments_rejects",
     "GridVerif.C14.dipole_spec",
+    # over the text generated from utils.generate_orders_horton_order / Grid.moments (Gen/Moments.lean)
+    "GridVerif.C14.gen_horton_eq_model",
+    "GridVerif.C14.gen_horton_unknown_type",
+    "GridVerif.C14.gen_indices_eq_rowIndex",
+    "GridVerif.C14.gen_moments_orders_spec",
+    "GridVerif.C14.gen_moments_rejects",
+    "GridVerif.C14.gen_moments_orders_radial_zero",
+    "GridVerif.C14.gen_solid_degree",
+    "GridVerif.C14.gen_row_lookup_correct",
 ]
 RULE = (
     "correspondence: generate_orders_horton_order for every type x dim 0..4 x order 0..8 (exact); Grid.moments on random "
     "grids (1-12 points, signed weights, a point on a centre now and then) for all four types x L 0..6 x 1-4 centres x "
     "dims 1..3 incl. the rejected combinations, and on OneDGrids (point array of shape (N,)) (values with tolerance, returned order list exact; solid-harmonic tables "
     "from the library); dipole_moment_of_molecule on random molecules. non-trivial = L >= 2, or >= 2 centres, or dim < 3, "
-    "or a rejected call"
+    "or a rejected call. Argument kinds covered in every run (counted under variant:* in the distribution): function values as "
+    "float64/float32/int64/int32/bool, centres as float/int64/int32 arrays, C/Fortran/strided/read-only layouts, the grid's own point array "
+    "as the centres, 5-10 centres, repeated centres, a centre on a grid point, orders as int/np.int32/np.int64, positional / keyword / "
+    "default-type / return_orders on-off call forms, the same call twice on one grid object with another call in between, several "
+    "successive cases on one grid object; the generator in two further request orders; the dipole helper with lists, integer / "
+    "int32 / float charges, integer coordinates, read-only arrays, called twice; the generated programs (gen:*) on all of these calls "
+    "plus 2-D function values, 1-D / 3-D centres, float / np.int16 orders, unknown type names"
 )
 TRUSTED_BASE = [
     "Lean 4.33 kernel; axioms propext, Classical.choice, Quot.sound only (audited per theorem)",
-    "hand model Model/Moments.lean of generate_orders_horton_order / Grid.moments / dipole_moment_of_molecule, tied by correspondence",
+    "hand model Model/Moments.lean of the quadrature part of Grid.moments and of dipole_moment_of_molecule, tied by correspondence",
+    "translator harness/translate/moments.py (Python AST -> Gen/Moments.lean) and the NumPy/Python primitives it targets (pyRange, npVstack, "
+    "npArrayRows, npUnpack3T, npMaskGet, npMaskIAdd, ... in Model/Moments.lean); mitigation: the generated programs are run by the driver "
+    "and compared with the implementation (order arrays incl. their number of dimensions, accepted/rejected calls) and the index "
+    "statements of the library are executed next to their translation",
     "NumPy broadcasting/einsum/vstack semantics as modelled (list operations)",
     "solid_harmonics returns rows in Horton-2 order evaluated at the centred points (hypothesis of moments_entry; property C08; checked end to end by the oracle)",
 ]
@@ -50,6 +77,10 @@ ASSUMPTIONS = [
     "exact real arithmetic in the theorems; floating-point agreement up to 1e-10 of the sum of |terms|",
     "zero centres (output of shape (0,)) and negative orders are outside the model",
     "isotopic_masses lookup is data: the masses are passed to the model",
+    "centres and function values are NumPy arrays (the documented types): a Python list for either is rejected by Grid.moments with "
+    "AttributeError ('list' object has no attribute 'ndim') before anything is computed - a rejection, outside the property; the dipole "
+    "helper accepts lists (covered)",
+    "orders must be int / np.int32 / np.int64: np.int16 and float are rejected with TypeError (modelled by the generated guards)",
 ]
 
 TYPES = ["cartesian", "radial", "pure", "pure-radial"]
@@ -138,25 +169,136 @@ exec(REF_SRC, _ns)
 ref_orders, ref_all_orders, basis, direct = _ns["ref_orders"], _ns["ref_all_orders"], _ns["basis"], _ns["direct"]
 
 
+# How a case (with its variant fields) is turned into a call of the implementation; source text so that the
+# replay snippets are self-contained.
+CALL_SRC = '''
+import numpy as np
+_GRID_POOL = {}
+def _layout(a, how):
+    """the same values in another memory layout / writeability"""
+    a = np.asarray(a)
+    if how == "fortran":
+        return np.asfortranarray(a)
+    if how == "strided":
+        big = np.zeros(tuple(2 * s for s in a.shape), dtype=a.dtype)
+        sl = tuple(slice(None, None, 2) for _ in a.shape)
+        big[sl] = a
+        return big[sl]
+    if how == "readonly":
+        b = a.copy(); b.setflags(write=False)
+        return b
+    return a
+def build_args(case, Grid):
+    key = repr((case["pts"], case["w"]))
+    g = _GRID_POOL.get(key) if case.get("reuse_grid") else None
+    if g is None:
+        g = Grid(np.array(case["pts"], dtype=float), np.array(case["w"], dtype=float))
+        if len(_GRID_POOL) > 64:
+            _GRID_POOL.clear()
+        _GRID_POOL[key] = g
+    f = _layout(np.array(case["f"], dtype=float).astype(case.get("fdtype", "float64")), case.get("flayout", "c"))
+    if case.get("cs_is_points"):
+        cs = g.points                       # the grid's own array object as the centres
+    else:
+        cs = _layout(np.array(case["cs"], dtype=float).astype(case.get("cdtype", "float64")), case.get("clayout", "c"))
+    L = {"int": int, "np.int32": np.int32, "np.int64": np.int64, "np.int16": np.int16, "float": float}[case.get("otype", "int")](case["L"])
+    return g, L, cs, f
+def call_moments(case, Grid):
+    """-> (values, orders); with case['twice'] the call is made, another call with other arguments is made on the
+    same grid object, and the call is repeated with the same argument objects: both answers must be identical and
+    the argument arrays unchanged."""
+    g, L, cs, f = build_args(case, Grid)
+    def once():
+        how = case.get("call", "kw")
+        if how == "positional":
+            return g.moments(L, cs, f, case["typ"], True)
+        if how == "no-orders":
+            return g.moments(L, cs, f, type_mom=case["typ"]), g.moments(L, cs, f, type_mom=case["typ"], return_orders=True)[1]
+        if how == "all-kw":
+            return g.moments(orders=L, centers=cs, func_vals=f, type_mom=case["typ"], return_orders=True)
+        if how == "default-type":
+            return g.moments(L, cs, f, return_orders=True)
+        return g.moments(L, cs, f, type_mom=case["typ"], return_orders=True)
+    if not case.get("twice"):
+        return once()
+    f0, cs0 = np.array(f, copy=True), np.array(cs, copy=True)
+    v1, o1 = once()
+    other = "radial" if case["typ"] != "radial" else "cartesian"
+    g.moments(int(case["L"]) + 1, np.array(cs0[:1], dtype=float) + 0.25, f, type_mom=other)
+    v2, o2 = once()
+    if not (np.array_equal(np.asarray(v1), np.asarray(v2), equal_nan=True) and np.array_equal(np.asarray(o1), np.asarray(o2))):
+        raise AssertionError("state: the same call on the same grid object gave two different answers")
+    if not (np.array_equal(f0, f) and np.array_equal(cs0, cs)):
+        raise AssertionError("state: moments changed one of its argument arrays")
+    return v2, o2
+'''
+exec(CALL_SRC, _ns)
+call_moments, build_args = _ns["call_moments"], _ns["build_args"]
+
+DIPOLE_CALL_SRC = '''
+import numpy as np
+def call_dipole(d, Grid, dipole_moment_of_molecule):
+    """the dipole helper with its arguments in the container kind / dtype named by d['container']"""
+    g = Grid(np.array(d["pts"]), np.array(d["w"]))
+    kind = d.get("container", "array")
+    dens, coords, charges = np.array(d["dens"]), np.array(d["coords"]), np.array(d["charges"])
+    if kind == "list":
+        coords, charges = [list(r) for r in d["coords"]], list(d["charges"])
+    elif kind == "int32-charges":
+        charges = charges.astype(np.int32)
+    elif kind == "float-charges":
+        charges = charges.astype(float)
+    elif kind == "int-coords":
+        coords = coords.astype(np.int64)
+    elif kind == "readonly":
+        for a in (dens, coords, charges):
+            a.setflags(write=False)
+    r1 = dipole_moment_of_molecule(g, dens, coords, charges)
+    if d.get("twice"):
+        dipole_moment_of_molecule(g, dens * 0.5, np.asarray(coords, dtype=float) + 0.1, charges)
+        r2 = dipole_moment_of_molecule(g, dens, coords, charges)
+        assert np.array_equal(np.asarray(r1), np.asarray(r2)), "state: the same dipole call gave two different answers"
+    return r1
+'''
+exec(DIPOLE_CALL_SRC, _ns)
+call_dipole = _ns["call_dipole"]
+
+VARIANT_KEYS = ("fdtype", "cdtype", "clayout", "flayout", "otype", "call", "twice", "reuse_grid", "cs_is_points")
+
+
 def _r(x, nd=3):
     return round(float(x), nd)
 
 
-def _case(ctx: Ctx, typ=None, dim=None, Lmax=6):
+def _case(ctx: Ctx, typ=None, dim=None, Lmax=6, prev=None):
     rng = ctx.rng
     typ = typ or rng.choice(TYPES)
     if dim is None:
         dim = rng.choice([1, 2, 3]) if typ in ("cartesian", "radial") else (3 if rng.random() < 0.9 else rng.choice([1, 2]))
     L = rng.randint(0, Lmax)
     n = rng.randint(1, 12)
-    nc = rng.randint(1, 4)
-    pts = [[_r(rng.uniform(-1.5, 1.5)) for _ in range(dim)] for _ in range(n)]
+    nc = rng.randint(1, 4) if rng.random() < 0.88 else rng.randint(5, 10)          # now and then many centres
+    reuse = prev is not None and prev["dim"] == dim and rng.random() < 0.3
+    if reuse:                                                       # the same grid object as the case before
+        pts, w, n = [list(p) for p in prev["pts"]], list(prev["w"]), len(prev["pts"])
+    else:
+        pts = [[_r(rng.uniform(-1.5, 1.5)) for _ in range(dim)] for _ in range(n)]
+        w = [_r(rng.uniform(-0.5, 1.5)) for _ in range(n)]
     cs = [[_r(rng.uniform(-1, 1)) for _ in range(dim)] for _ in range(nc)]
-    if rng.random() < 0.25:
+    cdtype = "float64"
+    if rng.random() < 0.15:                                         # integer-valued centres, passed as an integer array
+        cs = [[float(rng.randint(-1, 1)) for _ in range(dim)] for _ in range(nc)]
+        cdtype = rng.choice(["int64", "int32"])
+    elif rng.random() < 0.25:
         cs[rng.randrange(nc)] = list(pts[rng.randrange(n)])          # a grid point on a centre
     if rng.random() < 0.1:
         cs[0] = [0.0] * dim
-    w = [_r(rng.uniform(-0.5, 1.5)) for _ in range(n)]
+    if nc >= 2 and rng.random() < 0.3:
+        i, j = rng.sample(range(nc), 2)
+        cs[j] = list(cs[i])                                         # the same centre twice
+    cs_is_points = rng.random() < 0.05
+    if cs_is_points:                                                # every grid point is a centre (the grid's own array)
+        cs, cdtype = [list(p) for p in pts], "float64"
     f = [_r(rng.uniform(-2, 2)) for _ in range(n)]
     # the function values may be of any numeric dtype ("all function value arrays"): integer counts,
     # boolean indicator masks and single-precision arrays must give the same quadrature as their
@@ -168,16 +310,31 @@ def _case(ctx: Ctx, typ=None, dim=None, Lmax=6):
         f = [float(rng.random() < 0.5) for _ in range(n)]
     elif fdtype == "float32":
         f = [float(np.float32(x)) for x in f]
-    return dict(typ=typ, L=L, dim=dim, pts=pts, w=w, f=f, cs=cs, fdtype=fdtype)
+    lay = ["c"] * 5 + ["fortran", "strided", "readonly"]
+    return dict(typ=typ, L=L, dim=dim, pts=pts, w=w, f=f, cs=cs, fdtype=fdtype, cdtype=cdtype,
+                clayout=rng.choice(lay), flayout=rng.choice(lay),
+                otype=rng.choice(["int"] * 4 + ["np.int32", "np.int64"]),
+                call=rng.choice(["kw"] * 4 + ["positional", "no-orders", "all-kw"] + (["default-type"] if typ == "cartesian" else [])),
+                twice=rng.random() < 0.15, reuse_grid=reuse, cs_is_points=cs_is_points)
+
+
+def _arr(a):
+    """an integer array of one or two dimensions in the driver's notation (`1 <ivec>` | `2 <imat>`)"""
+    a = np.asarray(a)
+    if a.ndim == 1:
+        return " ".join(["1", str(a.shape[0])] + [str(int(x)) for x in a])
+    return " ".join(["2", str(a.shape[0]), str(a.shape[1] if a.shape[0] else 0)] + [str(int(x)) for x in a.ravel()])
+
+
+def _ivec(xs):
+    xs = list(xs)
+    return " ".join([str(len(xs))] + [str(int(x)) for x in xs])
 
 
 def _impl_moments(case, flen=None, cdim=None):
     bg = importlib.import_module("grid.basegrid")
-    g = bg.Grid(np.array(case["pts"], dtype=float), np.array(case["w"], dtype=float))
-    f = np.array(case["f"], dtype=float).astype(case.get("fdtype", "float64"))
-    cs = np.array(case["cs"], dtype=float)
     try:
-        vals, orders = g.moments(case["L"], cs, f, type_mom=case["typ"], return_orders=True)
+        vals, orders = call_moments(case, bg.Grid)
     except ValueError:
         return "value-error", None, None
     except IndexError:
@@ -185,9 +342,10 @@ def _impl_moments(case, flen=None, cdim=None):
     except TypeError:
         return "type-error", None, None
     except Exception as e:
-        return f"raised {type(e).__name__}", None, None
+        return f"raised {type(e).__name__}: {e}", None, None
     vals = np.asarray(vals, dtype=float)
     orders = np.asarray(orders)
+    case["_orders_arr"] = _arr(orders)
     if orders.ndim == 1:
         orders = orders.reshape(-1, 1)
     return "ok", vals.tolist(), [[int(x) for x in row] for row in orders]
@@ -221,24 +379,50 @@ def corr(ctx: Ctx):
     # 1. order generator, every type x dim x order
     reqs = [(ty, dim, l) for ty in TYPES for dim in (0, 1, 2, 3, 4) for l in range(0, 9)]
     ans = driver_batch([f"C14.horton {ty} {dim} {l}" for ty, dim, l in reqs])
-    for (ty, dim, l), a in zip(reqs, ans):
+    gans = driver_batch([f"C14.gen-horton {ty} {dim} {l}" for ty, dim, l in reqs])
+
+    def impl_horton(l, ty, dim):
+        """-> (answer in the model's notation, answer in the notation of the generated program)"""
         try:
             o = np.asarray(ut.generate_orders_horton_order(l, ty, dim))
-            shape = o.shape
             o2 = o.reshape(-1, 1) if o.ndim == 1 and ty == "radial" else o
             if o2.size == 0:
-                impl = f"ok 0 0"
-            else:
-                impl = "ok " + " ".join([str(o2.shape[0]), str(o2.shape[1])] + [str(int(x)) for x in o2.ravel()])
+                return "ok 0 0", "ok " + _arr(o)
+            return "ok " + " ".join([str(o2.shape[0]), str(o2.shape[1])] + [str(int(x)) for x in o2.ravel()]), "ok " + _arr(o)
         except ValueError:
-            impl = "value-error"
+            return "value-error", "value-error"
         except Exception as e:                      # anything else is not an accepted outcome
-            impl = f"raised {type(e).__name__}: {e}"
+            return f"raised {type(e).__name__}: {e}", f"raised {type(e).__name__}: {e}"
+
+    first = {}
+    for (ty, dim, l), a, ga in zip(reqs, ans, gans):
+        impl, gimpl = impl_horton(l, ty, dim)
+        first[(ty, dim, l)] = impl
+        ctx.count(["gen-horton", ty, dim, l], nontrivial=(l >= 2 or impl == "value-error"), tag="gen:horton")
+        if gimpl != ga:
+            ctx.fail("corr", f"utils.generate_orders_horton_order:{ty}:generated", f"generate_orders_horton_order({l}, {ty}, {dim}): implementation {gimpl}, "
+                     f"translated program {ga}", witness=dict(order=l, type=ty, dim=dim, impl=gimpl, generated=ga))
         ctx.count(["horton", ty, dim, l], nontrivial=(l >= 2 or impl == "value-error"), tag=f"horton:{ty}:" + ("reject" if impl == "value-error" else f"dim{dim}" if ty == "cartesian" else "ok"))
         am = a if not a.startswith("ok 0 ") else "ok 0 0"
         if impl != am:
             ctx.fail("corr", f"utils.generate_orders_horton_order:{ty}", f"generate_orders_horton_order({l}, {ty}, {dim}): implementation {impl}, model {a}",
                      witness=dict(order=l, type=ty, dim=dim, impl=impl, model=a))
+    # the same requests again in another order (a result remembered under too coarse a key would show), and the
+    # rejected arguments: an unknown type name, an order that is not a Python int
+    again = list(reqs)
+    ctx.rng.shuffle(again)
+    for ty, dim, l in again + list(reversed(reqs)):
+        impl, _ = impl_horton(l, ty, dim)
+        ctx.count(["horton-again", ty, dim, l], nontrivial=False, tag="horton:repeated")
+        if impl != first[(ty, dim, l)]:
+            ctx.fail("corr", f"utils.generate_orders_horton_order:{ty}:state", f"generate_orders_horton_order({l}, {ty}, {dim}) answered {first[(ty, dim, l)]} "
+                     f"the first time and {impl} later in the same process", witness=dict(order=l, type=ty, dim=dim))
+    bad = [("spherical", 3, 2), ("Cartesian", 3, 1), ("", 2, 0), ("pure_radial", 3, 2)]
+    for (ty, dim, l), ga in zip(bad, driver_batch([f"C14.gen-horton {ty or '_'} {dim} {l}" for ty, dim, l in bad])):
+        impl, _ = impl_horton(l, ty or "_", dim)
+        ctx.count(["gen-horton", ty, dim, l], nontrivial=True, tag="gen:horton:unknown-type")
+        if impl != ga:
+            ctx.fail("corr", "utils.generate_orders_horton_order:unknown-type", f"type {ty!r}: implementation {impl}, translated program {ga}")
     # 2. the (l, m) -> row arithmetic against the position in the library's own stacked pure list
     stacked = [list(map(int, r)) for l in range(8) for r in ut.generate_orders_horton_order(l, "pure", 3)]
     lm = [(l, m) for l in range(8) for m in range(-l, l + 1)]
@@ -257,11 +441,12 @@ def corr(ctx: Ctx):
                 c["L"] = L
                 cases.append(c)
     while len(cases) < ncase:
-        cases.append(_case(ctx))
+        cases.append(_case(ctx, prev=cases[-1]))
     # malformed: wrong f length, wrong centre dimension
     extra = []
     for _ in range(ctx.n(12, 100)):
         c = _case(ctx)
+        c["cs_is_points"] = False
         if ctx.rng.random() < 0.5:
             c["f"] = c["f"] + [1.0]
             c["_bad"] = "f-length"
@@ -275,11 +460,17 @@ def corr(ctx: Ctx):
         lines.append(_line(c, c["_tabs"]))
     ans = driver_batch(lines)
     for c, a in zip(cases + extra, ans):
-        pub = {k: c[k] for k in ("typ", "L", "dim", "pts", "w", "f", "cs", "fdtype") if k in c}
+        pub = {k: c[k] for k in ("typ", "L", "dim", "pts", "w", "f", "cs") + VARIANT_KEYS if k in c}
         tag, vals, orders = _impl_moments(c)
+        c["_tag"] = tag
         rejected = tag != "ok"
         ctx.count(["moments", pub], nontrivial=(c["L"] >= 2 or len(c["cs"]) >= 2 or c["dim"] < 3 or rejected),
                   tag=f"moments:{c['typ']}:" + (c.get("_bad") or ("reject" if rejected else f"dim{c['dim']}")))
+        for k in VARIANT_KEYS:
+            if c.get(k) not in (None, False, "float64", "c", "int", "kw"):
+                ctx.distribution[f"variant:{k}={c[k]}"] = ctx.distribution.get(f"variant:{k}={c[k]}", 0) + 1
+        if len(c["cs"]) >= 5:
+            ctx.distribution["variant:centres>=5"] = ctx.distribution.get("variant:centres>=5", 0) + 1
         t = Tokens(a)
         mt = t.tok()
         if mt != tag:
@@ -301,8 +492,93 @@ def corr(ctx: Ctx):
                 if not close(vals[k][ci], mvals[k][ci], rtol=1e-10, scale=scale + 1e-300):
                     ctx.fail("corr", f"basegrid.moments:{c['typ']}", f"entry (row {k} = {order}, centre {ci}): implementation {vals[k][ci]!r}, model {mvals[k][ci]!r}",
                              witness=dict(pub, row=k, order=order, centre=ci))
-    # 3b. one-dimensional point arrays (OneDGrid, points of shape (N,))
+    # 3a. the translated programs of Grid.moments (Gen/Moments.lean) on the same calls: the statements before the
+    #     loop over the centres (guards, reshape guard, list of orders, dim, stacked order array) see the arrays
+    #     through their shapes; the index block of the pure-radial branch sees the order array.
     bg = importlib.import_module("grid.basegrid")
+    tm = importlib.import_module("harness.translate.moments")
+    try:
+        idx_src = tm.index_block_source()
+    except Exception as e:
+        idx_src = None
+        ctx.fail("corr", "translator:moments", f"the translator cannot carry the current source: {type(e).__name__}: {e}")
+    stacked = [list(map(int, r)) for l in range(8) for r in ut.generate_orders_horton_order(l, "pure", 3)]
+    gcases = list(cases + extra)
+    # further rejected argument kinds that only the translated guards model
+    for _ in range(ctx.n(16, 120)):
+        c = _case(ctx)
+        c.update(cs_is_points=False, twice=False, call="kw", cdtype="float64")
+        c["_bad"] = ctx.rng.choice(["f-2d", "centres-1d", "orders-float", "orders-int16", "centres-3d"])
+        gcases.append(c)
+    glines = []
+    for c in gcases:
+        g, L, cs, f = build_args(c, bg.Grid)
+        bad = c.get("_bad")
+        if bad == "f-2d":
+            f = f.reshape(-1, 1)
+        elif bad == "centres-1d":
+            cs = cs[0]
+        elif bad == "centres-3d":
+            cs = cs[None, :, :]
+        elif bad == "orders-float":
+            L, c["otype"] = float(c["L"]), "float"
+        elif bad == "orders-int16":
+            L, c["otype"] = np.int16(c["L"]), "np.int16"
+        if "_tag" not in c:
+            try:
+                g.moments(L, cs, f, type_mom=c["typ"])
+                c["_tag"] = "ok"
+            except ValueError:
+                c["_tag"] = "value-error"
+            except TypeError:
+                c["_tag"] = "type-error"
+            except Exception as e:
+                c["_tag"] = f"raised {type(e).__name__}: {e}"
+        c["_shapes"] = (list(g.points.shape), list(np.shape(cs)), list(np.shape(f)))
+        glines.append(f"C14.gen-orders {_ivec(g.points.shape)} {_ivec(np.shape(cs))} {_ivec(np.shape(f))} {int(c['L'])} {c.get('otype', 'int')} {c['typ']}")
+    gans = driver_batch(glines)
+    idx_lines, idx_cases = [], []
+    for c, a in zip(gcases, gans):
+        wit = dict(typ=c["typ"], L=c["L"], shapes=c["_shapes"], otype=c.get("otype", "int"), bad=c.get("_bad"))
+        ctx.count(["gen-orders", wit], nontrivial=True, tag="gen:orders:" + (c.get("_bad") or ("ok" if c["_tag"] == "ok" else "reject")))
+        t = Tokens(a)
+        gt = t.tok()
+        if c["_tag"] == "ok":
+            want = f"ok {c['_shapes'][0][1] if len(c['_shapes'][0]) == 2 else 1} " + _ivec(range(1 if c["typ"] == "pure-radial" else 0, c["L"] + 1)) + " " + c["_orders_arr"]
+            if a.strip() != want:
+                ctx.fail("corr", "basegrid.moments:generated-orders", f"the implementation accepted the call and returned the order array [{c['_orders_arr'][:60]}…]; "
+                         f"the translated statements give {a[:90]}", witness=wit)
+                continue
+            if c["typ"] == "pure-radial" and idx_src is not None:
+                idx_lines.append("C14.gen-indices " + c["_orders_arr"])
+                idx_cases.append(c)
+        elif gt == "ok":
+            # the translated prefix accepts; the implementation may still reject later, inside the loop over the
+            # centres: only the pure types on points that are not three-dimensional (convert_cart_to_sph)
+            if not (c["typ"] in ("pure", "pure-radial") and c["_shapes"][0][1:] != [3] and c["_tag"] == "value-error"):
+                ctx.fail("corr", "basegrid.moments:generated-guards", f"implementation {c['_tag']}, the translated guards accept ({a[:60]})", witness=wit)
+        elif gt != c["_tag"]:
+            ctx.fail("corr", "basegrid.moments:generated-guards", f"implementation {c['_tag']}, translated guards {gt}", witness=wit)
+    seen = set()
+    for c, a in zip(idx_cases, driver_batch(idx_lines)):
+        if c["L"] in seen and ctx.rng.random() < 0.7:
+            continue
+        seen.add(c["L"])
+        orders = np.array([list(map(int, r)) for r in _read_imat(Tokens(c["_orders_arr"][2:]))])
+        ns = {"np": np, "all_orders": orders.copy()}
+        exec(idx_src, ns)                                            # the very statements of the library
+        lib = [int(x) for x in ns["indices"]]
+        ref = [stacked.index([int(l), int(m)]) for _, l, m in orders]  # position in the library's Horton-2 list
+        ctx.count(["gen-indices", c["L"]], nontrivial=c["L"] >= 2, tag="gen:indices")
+        if a.strip() != "ok " + _ivec(lib) or lib != ref:
+            ctx.fail("corr", "basegrid.moments:row-index:generated", f"L={c['L']}: index statements of the library give {lib[:12]}…, translated program {a[:60]}…, "
+                     f"rows of (l,m) in the Horton-2 list {ref[:12]}…", witness=dict(L=c["L"]))
+    degs = [(ty, L) for ty in TYPES for L in range(0, 7) if not (ty == "pure-radial" and L == 0)]
+    for (ty, L), a in zip(degs, driver_batch([f"C14.gen-degree {_ivec(range(1 if ty == 'pure-radial' else 0, L + 1))}" for ty, L in degs])):
+        ctx.count(["gen-degree", ty, L], nontrivial=False, tag="gen:degree")
+        if a.strip() != f"ok {L}":
+            ctx.fail("corr", "basegrid.moments:solid-degree", f"degree handed to solid_harmonics for L={L} ({ty}): translated expression gives {a}")
+    # 3b. one-dimensional point arrays (OneDGrid, points of shape (N,))
     flat, lines = [], []
     for i in range(ctx.n(60, 1200)):
         ty = TYPES[i % 4] if i < 16 else ctx.rng.choice(["cartesian", "radial", "cartesian", "radial", "pure", "pure-radial"])
@@ -311,20 +587,30 @@ def corr(ctx: Ctx):
                  f=[_r(ctx.rng.uniform(-2, 2)) for _ in range(n)], cs=[[_r(ctx.rng.uniform(-1, 1))] for _ in range(nc)])
         if ctx.rng.random() < 0.2:
             c["cs"][0] = [c["pts"][0]]
+        c["cdtype"] = "float64"
+        if ctx.rng.random() < 0.15:
+            c["cs"], c["cdtype"] = [[float(ctx.rng.randint(-1, 1))] for _ in range(nc)], ctx.rng.choice(["int64", "int32"])
+        c["otype"] = ctx.rng.choice(["int"] * 3 + ["np.int32", "np.int64"])
+        c["fdtype"] = ctx.rng.choice(["float64"] * 4 + ["float32", "int64"])
+        if c["fdtype"] == "float32":
+            c["f"] = [float(np.float32(x)) for x in c["f"]]
+        elif c["fdtype"] == "int64":
+            c["f"] = [float(ctx.rng.randint(-3, 4)) for _ in range(n)]
+        c["twice"] = ctx.rng.random() < 0.3
         flat.append(c)
         lines.append(f"C14.moments-flat {ty} {L} {fvec(c['pts'])} {fvec(c['w'])} {fvec(c['f'])} {fmat(c['cs'])}")
     ans = driver_batch(lines)
     for c, a in zip(flat, ans):
-        g1 = bg.OneDGrid(np.array(c["pts"]), np.array(c["w"]))
         try:
-            vals, orders = g1.moments(c["L"], np.array(c["cs"]), np.array(c["f"]), type_mom=c["typ"], return_orders=True)
+            c1 = dict(c, w=c["w"], reuse_grid=False)
+            vals, orders = call_moments(c1, bg.OneDGrid)
             impl = "ok"
         except IndexError:
             impl = "index-error"
         except ValueError:
             impl = "value-error"
         except Exception as e:
-            impl = f"raised-{type(e).__name__}"
+            impl = f"raised-{type(e).__name__}:{e}"
         ctx.count(["moments-flat", c], nontrivial=True, tag=f"moments:points-1d:{c['typ']}:" + ("ok" if impl == "ok" else "reject"))
         t = Tokens(a)
         if t.tok() != impl:
@@ -355,14 +641,23 @@ def corr(ctx: Ctx):
                  coords=[[_r(ctx.rng.uniform(-1.5, 1.5)) for _ in range(3)] for _ in range(na)],
                  charges=[ctx.rng.randint(1, 18) for _ in range(na)])
         d["masses"] = [float(ut.isotopic_masses[z]) for z in d["charges"]]
+        # container kind / dtype of the arguments: lists and integer arrays are accepted by the helper
+        d["container"] = ctx.rng.choice(["array"] * 3 + ["list", "int32-charges", "float-charges", "int-coords", "readonly"])
+        if d["container"] == "int-coords":
+            d["coords"] = [[float(ctx.rng.randint(-2, 2)) for _ in range(3)] for _ in range(na)]
+        d["twice"] = ctx.rng.random() < 0.3
         dcases.append(d)
         lines.append(f"C14.dipole 3 {fmat(d['pts'])} {fvec(d['w'])} {fvec(d['dens'])} {fmat(d['coords'])} {fvec(d['charges'])} {fvec(d['masses'])}")
     ans = driver_batch(lines)
     bg = importlib.import_module("grid.basegrid")
     for d, a in zip(dcases, ans):
-        g = bg.Grid(np.array(d["pts"]), np.array(d["w"]))
-        got = [float(x) for x in ut.dipole_moment_of_molecule(g, np.array(d["dens"]), np.array(d["coords"]), np.array(d["charges"]))]
-        ctx.count(["dipole", {k: d[k] for k in ("pts", "w", "dens", "coords", "charges")}], nontrivial=len(d["charges"]) >= 2, tag=f"dipole:{len(d['charges'])}atoms")
+        try:
+            got = [float(x) for x in call_dipole(d, bg.Grid, ut.dipole_moment_of_molecule)]
+        except Exception as e:
+            ctx.fail("corr", "utils.dipole_moment_of_molecule", f"raised {type(e).__name__}: {e} (arguments given as {d['container']})", witness=d)
+            continue
+        ctx.count(["dipole", {k: d[k] for k in ("pts", "w", "dens", "coords", "charges", "container", "twice")}], nontrivial=len(d["charges"]) >= 2,
+                  tag=f"dipole:{len(d['charges'])}atoms:{d['container']}")
         t = Tokens(a)
         if t.tok() != "ok":
             ctx.fail("corr", "utils.dipole_moment_of_molecule", f"model answered {a}", witness=d)
@@ -377,9 +672,9 @@ SNIPPET = """import warnings; warnings.filterwarnings('ignore')
 import numpy as np
 from grid.basegrid import Grid
 {ref_src}
+{call_src}
 case = {case!r}
-g = Grid(np.array(case['pts'], dtype=float), np.array(case['w'], dtype=float))
-vals, orders = g.moments(case['L'], np.array(case['cs'], dtype=float), np.array(case['f'], dtype=float).astype(case.get('fdtype', 'float64')), type_mom=case['typ'], return_orders=True)
+vals, orders = call_moments(case, Grid)      # arguments in the dtype / layout / call form named by the case
 orders = np.asarray(orders); orders = orders.reshape(-1, 1) if orders.ndim == 1 else orders
 want_orders = ref_all_orders(case['L'], case['typ'], case['dim'])
 assert [list(map(int, r)) for r in orders] == want_orders, f'order list {{orders.tolist()}} is not the documented Horton order {{want_orders}}'
@@ -393,18 +688,136 @@ DIPOLE_SNIPPET = """import warnings; warnings.filterwarnings('ignore')
 import math, numpy as np
 from grid.basegrid import Grid
 from grid.utils import dipole_moment_of_molecule
+{call_src}
 d = {d!r}
-g = Grid(np.array(d['pts']), np.array(d['w']))
-got = dipole_moment_of_molecule(g, np.array(d['dens']), np.array(d['coords']), np.array(d['charges']))
+try:
+    got = call_dipole(d, Grid, dipole_moment_of_molecule)
+except AssertionError:
+    raise
+except Exception as e:
+    raise AssertionError(f'dipole_moment_of_molecule raised {{type(e).__name__}}: {{e}}')
 M = math.fsum(d['masses'])
 C = [math.fsum(m * r[j] for m, r in zip(d['masses'], d['coords'])) / M for j in range(3)]
 want = [math.fsum(z * (r[j] - C[j]) for z, r in zip(d['charges'], d['coords'])) - math.fsum(w * rho * (p[j] - C[j]) for w, rho, p in zip(d['w'], d['dens'], d['pts'])) for j in range(3)]
 assert len(got) == 3 and all(abs(float(a) - b) <= 1e-9 * (1 + abs(b)) for a, b in zip(got, want)), f'dipole {{list(got)}}, nuclear minus electronic first moments {{want}}'
 """
 
+HISTORY_SNIPPET = """import warnings; warnings.filterwarnings('ignore')
+import numpy as np
+from grid.basegrid import Grid
+{ref_src}
+history = {history!r}          # successive calls on ONE grid object
+g = Grid(np.array(history[0]['pts'], dtype=float), np.array(history[0]['w'], dtype=float))
+for step, case in enumerate(history):
+    vals, orders = g.moments(case['L'], np.array(case['cs'], dtype=float), np.array(case['f'], dtype=float), type_mom=case['typ'], return_orders=True)
+    orders = np.asarray(orders); orders = orders.reshape(-1, 1) if orders.ndim == 1 else orders
+    want_orders = ref_all_orders(case['L'], case['typ'], case['dim'])
+    assert [list(map(int, r)) for r in orders] == want_orders, f'call {{step}}: order list {{orders.tolist()}} is not the documented Horton order'
+    for k, order in enumerate(want_orders):
+        for ci, c in enumerate(case['cs']):
+            want, scale = direct(case['typ'], order, case['pts'], case['w'], case['f'], c)
+            assert abs(float(vals[k][ci]) - want) <= 1e-9 * (scale + 1e-300), f'call {{step}} on the same grid object, row {{k}} {{order}} centre {{ci}}: moments {{float(vals[k][ci])!r}}, direct quadrature {{want!r}}'
+"""
+
+
+def _history_probe(ctx: Ctx, typ=None, dim=None, L=None):
+    """State carried between calls: several calls on ONE grid object with overlapping arguments (same type, order and
+    number of centres but other centres; same centres but other function values; another type in between; the first
+    call again), every answer against direct quadrature."""
+    bg = importlib.import_module("grid.basegrid")
+    rng = ctx.rng
+    c0 = _case(ctx, typ, dim, Lmax=3)
+    if c0["typ"] in ("pure", "pure-radial") and c0["dim"] != 3:
+        return                                   # rejected combination, nothing to integrate
+    if L is not None:
+        c0["L"] = L
+    if c0["typ"] == "pure-radial" and c0["L"] == 0:
+        c0["L"] = 1
+    plain = dict(fdtype="float64", cdtype="float64", clayout="c", flayout="c", otype="int", call="kw", twice=False, reuse_grid=False, cs_is_points=False)
+    c0.update(plain)
+    n, d, nc = len(c0["pts"]), c0["dim"], len(c0["cs"])
+    c0["f"] = [_r(rng.uniform(-2, 2)) for _ in range(n)]
+    c1 = dict(c0, cs=[[_r(rng.uniform(-1, 1)) for _ in range(d)] for _ in range(nc)])
+    c2 = dict(c0, f=[_r(rng.uniform(-2, 2)) for _ in range(n)])
+    other = "radial" if c0["typ"] != "radial" else "cartesian"
+    c3 = dict(c0, typ=other, L=c0["L"] + 1)
+    history = [c0, c1, c2, c3, c0]
+    g = bg.Grid(np.array(c0["pts"], dtype=float), np.array(c0["w"], dtype=float))
+    keep = ("typ", "L", "dim", "pts", "w", "f", "cs")
+    for step, c in enumerate(history):
+        def report(what):
+            ctx.fail("oracle", f"basegrid.moments:{c['typ']}:state", f"call {step} of a sequence of calls on one grid object ({[h['typ'] for h in history[:step + 1]]}): {what}",
+                     witness=dict(history=[{k: h[k] for k in keep} for h in history[:step + 1]]),
+                     snippet=HISTORY_SNIPPET.format(ref_src=REF_SRC, history=[{k: h[k] for k in keep} for h in history[:step + 1]]))
+        try:
+            vals, orders = g.moments(c["L"], np.array(c["cs"], dtype=float), np.array(c["f"], dtype=float), type_mom=c["typ"], return_orders=True)
+        except Exception as e:
+            report(f"raised {type(e).__name__}: {e}")
+            return
+        orders = np.asarray(orders)
+        orders = orders.reshape(-1, 1) if orders.ndim == 1 else orders
+        want_orders = ref_all_orders(c["L"], c["typ"], c["dim"])
+        if [list(map(int, r)) for r in orders] != want_orders or np.shape(vals) != (len(want_orders), len(c["cs"])):
+            report(f"order list / shape differ: {np.shape(vals)} for {len(want_orders)} orders and {len(c['cs'])} centres")
+            return
+        for k, order in enumerate(want_orders):
+            for ci, cen in enumerate(c["cs"]):
+                want, scale = direct(c["typ"], order, c["pts"], c["w"], c["f"], cen)
+                if not close(float(vals[k][ci]), want, rtol=1e-9, scale=scale + 1e-300):
+                    report(f"row {k} {order} centre {ci}: moments gives {float(vals[k][ci])!r}, direct quadrature {want!r}")
+                    return
+
+
+def oracle_at(ctx: Ctx, failure):
+    """A correspondence disagreement -> the property itself at that input: the case alone on a fresh grid, and sequences of
+    calls on one grid object with the same type / dimension / order (state carried between calls)."""
+    w = failure.witness or {}
+    if not (isinstance(w, dict) and {"typ", "L", "dim", "pts", "w", "f", "cs"} <= set(w)):
+        return
+    c = {k: w[k] for k in ("typ", "L", "dim", "pts", "w", "f", "cs") + VARIANT_KEYS if k in w}
+    c["reuse_grid"] = False
+    if not (c["typ"] in ("pure", "pure-radial") and c["dim"] != 3) and not (c["typ"] == "pure-radial" and c["L"] == 0) \
+            and len(c["f"]) == len(c["pts"]) and all(len(x) == c["dim"] for x in c["cs"]):
+        _oracle_case(ctx, c)
+    for _ in range(6):
+        _history_probe(ctx, c["typ"], c["dim"], c["L"])
+
+
 # standard atomic weights (u), independent of the library's table; the library stores the
 # mass of the most abundant isotope, so only a loose agreement is expected
 _MASS_SANITY = {1: 1.008, 6: 12.011, 7: 14.007, 8: 15.999}
+
+
+def _oracle_case(ctx: Ctx, c):
+    """One case against direct quadrature with independently coded basis functions."""
+    pub = {k: c[k] for k in ("typ", "L", "dim", "pts", "w", "f", "cs") + VARIANT_KEYS if k in c}
+    pub["reuse_grid"] = False
+    key = f"basegrid.moments:{c['typ']}" + (f":dim{c['dim']}" if c["dim"] != 3 else "")
+    snip = SNIPPET.format(ref_src=REF_SRC, call_src=CALL_SRC, case=pub)
+    try:
+        tag, vals, orders = _impl_moments(c)
+    except Exception as e:
+        ctx.fail("oracle", key, f"moments raised {type(e).__name__}: {e}", witness=pub, snippet=snip)
+        return
+    if tag != "ok":
+        ctx.fail("oracle", key, f"moments(L={c['L']}, {c['typ']}, dim={c['dim']}) raised {tag}", witness=pub, snippet=snip)
+        return
+    want_orders = ref_all_orders(c["L"], c["typ"], c["dim"])
+    if orders != want_orders:
+        ctx.fail("oracle", key + ":orders", f"returned order list {orders[:6]}… is not the documented Horton order {want_orders[:6]}…", witness=pub, snippet=snip)
+        return
+    if np.shape(vals) != (len(want_orders), len(c["cs"])):
+        ctx.fail("oracle", key + ":shape", f"result has shape {np.shape(vals)}, expected {(len(want_orders), len(c['cs']))}", witness=pub, snippet=snip)
+        return
+    bad = None
+    for k, order in enumerate(want_orders):
+        for ci, cen in enumerate(c["cs"]):
+            want, scale = direct(c["typ"], order, c["pts"], c["w"], c["f"], cen)
+            if not close(vals[k][ci], want, rtol=1e-9, scale=scale + 1e-300):
+                bad = bad or (k, order, ci, vals[k][ci], want)
+    if bad:
+        ctx.fail("oracle", key, f"row {bad[0]} (order {bad[1]}), centre {bad[2]}: moments gives {bad[3]!r}, direct quadrature of the defining integrand {bad[4]!r}",
+                 witness=dict(pub, row=bad[0], order=bad[1], centre=bad[2], got=bad[3], want=bad[4]), snippet=snip)
 
 
 def oracle(ctx: Ctx, budget: str):
@@ -449,33 +862,10 @@ def oracle(ctx: Ctx, budget: str):
     for c in cases:
         if c["typ"] == "pure-radial" and c["L"] == 0:
             c["L"] = 1
-        pub = {k: c[k] for k in ("typ", "L", "dim", "pts", "w", "f", "cs", "fdtype") if k in c}
-        key = f"basegrid.moments:{c['typ']}" + (f":dim{c['dim']}" if c["dim"] != 3 else "")
-        snip = SNIPPET.format(ref_src=REF_SRC, case=pub)
-        try:
-            tag, vals, orders = _impl_moments(c)
-        except Exception as e:
-            ctx.fail("oracle", key, f"moments raised {type(e).__name__}: {e}", witness=pub, snippet=snip)
-            continue
-        if tag != "ok":
-            ctx.fail("oracle", key, f"moments(L={c['L']}, {c['typ']}, dim={c['dim']}) raised {tag}", witness=pub, snippet=snip)
-            continue
-        want_orders = ref_all_orders(c["L"], c["typ"], c["dim"])
-        if orders != want_orders:
-            ctx.fail("oracle", key + ":orders", f"returned order list {orders[:6]}… is not the documented Horton order {want_orders[:6]}…", witness=pub, snippet=snip)
-            continue
-        if np.shape(vals) != (len(want_orders), len(c["cs"])):
-            ctx.fail("oracle", key + ":shape", f"result has shape {np.shape(vals)}, expected {(len(want_orders), len(c['cs']))}", witness=pub, snippet=snip)
-            continue
-        bad = None
-        for k, order in enumerate(want_orders):
-            for ci, cen in enumerate(c["cs"]):
-                want, scale = direct(c["typ"], order, c["pts"], c["w"], c["f"], cen)
-                if not close(vals[k][ci], want, rtol=1e-9, scale=scale + 1e-300):
-                    bad = bad or (k, order, ci, vals[k][ci], want)
-        if bad:
-            ctx.fail("oracle", key, f"row {bad[0]} (order {bad[1]}), centre {bad[2]}: moments gives {bad[3]!r}, direct quadrature of the defining integrand {bad[4]!r}",
-                     witness=dict(pub, row=bad[0], order=bad[1], centre=bad[2], got=bad[3], want=bad[4]), snippet=snip)
+        _oracle_case(ctx, c)
+    # state carried between calls on one grid object
+    for _ in range(10 if budget == "small" else 150):
+        _history_probe(ctx)
     # a library grid with a smooth function (atomic grid), low orders
     try:
         od = importlib.import_module("grid.onedgrid")
@@ -537,12 +927,18 @@ def oracle(ctx: Ctx, budget: str):
         for z, m in zip(d["charges"], d["masses"]):
             if abs(m - _MASS_SANITY[z]) > 0.02 * _MASS_SANITY[z]:
                 ctx.fail("oracle", "utils.isotopic_masses", f"mass of Z={z} is {m}, expected about {_MASS_SANITY[z]}")
-        g = bg.Grid(np.array(d["pts"]), np.array(d["w"]))
-        got = [float(x) for x in ut.dipole_moment_of_molecule(g, np.array(d["dens"]), np.array(d["coords"]), np.array(d["charges"]))]
+        d["container"] = ctx.rng.choice(["array", "array", "list", "int32-charges", "float-charges", "readonly"])
+        d["twice"] = ctx.rng.random() < 0.3
+        try:
+            got = [float(x) for x in call_dipole(d, bg.Grid, ut.dipole_moment_of_molecule)]
+        except Exception as e:
+            ctx.fail("oracle", "utils.dipole_moment_of_molecule", f"raised {type(e).__name__}: {e} (arguments given as {d['container']})",
+                     witness=d, snippet=DIPOLE_SNIPPET.format(d=d, call_src=DIPOLE_CALL_SRC))
+            continue
         M = math.fsum(d["masses"])
         C = [math.fsum(m * r[j] for m, r in zip(d["masses"], d["coords"])) / M for j in range(3)]
         want = [math.fsum(z * (r[j] - C[j]) for z, r in zip(d["charges"], d["coords"]))
                 - math.fsum(w * rho * (p[j] - C[j]) for w, rho, p in zip(d["w"], d["dens"], d["pts"])) for j in range(3)]
         if len(got) != 3 or not all(close(a, b, rtol=1e-9, scale=1 + abs(b) + 40) for a, b in zip(got, want)):
             ctx.fail("oracle", "utils.dipole_moment_of_molecule", f"dipole {got}, nuclear minus electronic first moments about the centre of mass {want}",
-                     witness=d, snippet=DIPOLE_SNIPPET.format(d=d))
+                     witness=d, snippet=DIPOLE_SNIPPET.format(d=d, call_src=DIPOLE_CALL_SRC))
